@@ -1121,6 +1121,24 @@ class DataFrame:
             raise ValueError("Length of index does not match number of rows")
 
     # -- structure
+    def fillna(self, value=None, method=None):
+        """per column: a scalar for every column, or a Series / dict keyed by the column labels"""
+        out = DataFrame()
+        out.index = self.index
+        for c in self.columns:
+            col = Series(self._cols[c], index=self.index, name=c)
+            if method is not None:
+                r = col.fillna(method=method)
+            elif isinstance(value, Series):
+                r = col.fillna(value=value.loc[c]) if c in value.index else col
+            elif isinstance(value, dict):
+                r = col.fillna(value=value[c]) if c in value else col
+            else:
+                r = col.fillna(value=value)
+            out._cols[c] = r._v
+            out.columns.append(c)
+        return out
+
     def dropna(self, axis=0, how="any", **kw):
         if axis not in (0, "index") or how != "any" or kw:
             raise ModelGap("DataFrame.dropna with axis/how/subset options")
